@@ -104,15 +104,55 @@ example : enabled (runOps {} [.rlock, .lock]) .rlock = false := by decide
 
 open Verif.Gen.ConcFacts
 
-/-- callees that receive a package-level slice/map and are known not to write through it -/
-def readOnlyCallees : List String :=
-  ["bytes.Equal#1", "isGlobalVar#1", "bytes.HasPrefix#1", "bytes.Split#1", "c.w.Write#0", "m.w.Write#0", "w.Write#0", "m.write#0",
-   "m.MinifyMimetype#0", "m.MinifyMimetype#3", "parse.EqualFold#1", "parse.ReplaceEntities#1", "parse.ReplaceEntities#2",
-   "parse.ReplaceMultipleWhitespaceAndEntities#1", "parse.ReplaceMultipleWhitespaceAndEntities#2",
-   -- read-only functions of the standard library and of parse/v2 (second operand of a search / comparison; parse.Copy reads)
-   "bytes.Contains#1", "bytes.Index#1", "bytes.LastIndex#1", "bytes.HasSuffix#1", "bytes.Compare#1", "bytes.EqualFold#1",
-   "bytes.Count#1", "bytes.ContainsAny#0", "bytes.IndexAny#0", "bytes.TrimPrefix#1", "bytes.TrimSuffix#1", "bytes.Equal#0",
-   "bytes.HasPrefix#0", "bytes.Contains#0", "bytes.Index#0", "parse.Copy#0", "parse.EqualFold#0"]
+/-! The facts are *semantic*: the translator (harness/cmd/extract/c13_facts.go + alias.go) resolves every name through the type
+checker and follows package-level slices / maps through local aliases, re-slices, parameters of the callees it has source
+for (the module itself and github.com/tdewolff/parse/v2), struct fields those callees store them in, and returned values.
+`aliasViolations` lists every write / escape it finds on the way (must be empty); `globalArgLeaves` lists the calls where
+such a value leaves the analysed code.  What is decided HERE is only which leaves are acceptable:
+a generous list of standard-library functions that never write through their slice / map arguments, and three named contracts.
+A harmless rewrite of /repo (renamed receiver, new read-only helper, another read-only standard-library call) therefore
+does not change the verdict; a write through any alias does. -/
+
+/-- standard-library functions and methods (`package.Function`, `package.Type.Method`) that only read the slices / maps they
+    are given (whichever argument position) -/
+def readOnlyStdlib : List String :=
+  ["bytes.Equal", "bytes.Compare", "bytes.Contains", "bytes.ContainsAny", "bytes.ContainsRune", "bytes.ContainsFunc", "bytes.Count",
+   "bytes.EqualFold", "bytes.HasPrefix", "bytes.HasSuffix", "bytes.Index", "bytes.IndexAny", "bytes.IndexByte", "bytes.IndexFunc",
+   "bytes.IndexRune", "bytes.LastIndex", "bytes.LastIndexAny", "bytes.LastIndexByte", "bytes.LastIndexFunc", "bytes.Split",
+   "bytes.SplitN", "bytes.SplitAfter", "bytes.SplitAfterN", "bytes.Fields", "bytes.FieldsFunc", "bytes.Trim", "bytes.TrimLeft",
+   "bytes.TrimRight", "bytes.TrimFunc", "bytes.TrimLeftFunc", "bytes.TrimRightFunc", "bytes.TrimSpace", "bytes.TrimPrefix",
+   "bytes.TrimSuffix", "bytes.Cut", "bytes.CutPrefix", "bytes.CutSuffix", "bytes.Join", "bytes.Repeat", "bytes.ToUpper",
+   "bytes.ToLower", "bytes.ToTitle", "bytes.Title", "bytes.Map", "bytes.Runes", "bytes.Clone", "bytes.Replace", "bytes.ReplaceAll",
+   "bytes.ToValidUTF8", "bytes.NewReader", "bytes.Buffer.Write", "bytes.Buffer.WriteString",
+   "strings.Builder.Write", "bufio.Writer.Write", "os.File.Write", "os.File.WriteAt",
+   "utf8.DecodeRune", "utf8.DecodeLastRune", "utf8.FullRune", "utf8.RuneCount", "utf8.Valid", "utf8.RuneStart",
+   "unicode.Is", "unicode.In", "unicode.IsOneOf",
+   "regexp.Regexp.Match", "regexp.Regexp.Find", "regexp.Regexp.FindIndex", "regexp.Regexp.FindSubmatch", "regexp.Regexp.FindSubmatchIndex",
+   "regexp.Regexp.FindAll", "regexp.Regexp.FindAllIndex", "regexp.Regexp.FindAllSubmatch", "regexp.Regexp.ReplaceAll",
+   "regexp.Regexp.ReplaceAllLiteral", "regexp.Match",
+   "slices.Equal", "slices.Compare", "slices.Contains", "slices.ContainsFunc", "slices.Index", "slices.IndexFunc", "slices.BinarySearch",
+   "slices.Max", "slices.Min", "slices.Clone", "maps.Keys", "maps.Values", "maps.Clone", "maps.Equal",
+   "hex.EncodeToString", "hex.Dump", "base64.Encoding.EncodeToString", "base64.Encoding.EncodedLen",
+   "crc32.ChecksumIEEE", "crc32.Checksum", "crc64.Checksum", "adler32.Checksum", "sha256.Sum256", "sha256.Sum224", "sha1.Sum",
+   "md5.Sum", "sha512.Sum512", "fnv.New32a", "hash.Hash.Write", "hash.Hash32.Write", "hash.Hash64.Write",
+   "fmt.Sprint", "fmt.Sprintf", "fmt.Sprintln", "fmt.Fprint", "fmt.Fprintf", "fmt.Fprintln", "fmt.Errorf", "fmt.Print", "fmt.Printf",
+   "fmt.Println", "log.Logger.Print", "log.Logger.Printf", "log.Logger.Println",
+   "strconv.ParseInt", "strconv.ParseUint", "strconv.ParseFloat", "strconv.Atoi", "reflect.DeepEqual"]
+
+/-- (function, argument index) pairs: the function writes another argument but only reads this one -/
+def readOnlyStdlibAt : List (String × Int) :=
+  [("hex.Encode", 1), ("hex.Decode", 1), ("base64.Encoding.Encode", 1), ("base64.Encoding.Decode", 1),
+   ("strconv.AppendQuote", 1), ("utf8.AppendRune", 1), ("crc32.Update", 2), ("crc32.Update", 1), ("binary.Write", 2)]
+
+/-- named contracts about code the analysis cannot see:
+    * `io.Writer.Write(p)`: "Write must not modify the slice data, even temporarily" (package io);
+    * a registered minifier — `minify.Minifier.Minify(m, w, r, params)` behind the interface, or a `minify.MinifierFunc` — must not
+      write to the `params` map it is handed (the in-module implementations are analysed; this is the contract for foreign ones) -/
+def contracts : List (String × Int) :=
+  [("io.Writer.Write", 0), ("minify.Minifier.Minify", 3), ("func value of type minify.MinifierFunc", 3)]
+
+def leafOk (l : String × Int) : Bool :=
+  readOnlyStdlib.contains l.1 || readOnlyStdlibAt.contains l || contracts.contains l
 
 def expectedLockUse : List String :=
   ["M.Add: Lock;Unlock", "M.AddCmd: Lock;Unlock", "M.AddCmdRegexp: Lock;Unlock", "M.AddFunc: Lock;Unlock",
@@ -124,19 +164,21 @@ def factsOk : Bool :=
   globalWrites.isEmpty &&
   -- every write through a Minify receiver happens on a private copy
   optionWrites.all (fun s => s.endsWith " dominated") &&
-  -- the only map iteration builds a set (order-insensitive)
-  mapRanges == ["js.newRenamer: js.Keywords"] &&
+  -- every iteration over a map only does order-insensitive things (builds a set, counts)
+  mapRanges.all (fun s => s.endsWith " order-insensitive") &&
   -- goroutines only in the three pipe wrappers; no time, randomness, environment
   nondet == ["minify.M.Reader: go", "minify.M.Writer: go", "minify.responseWriter.Write: go"] &&
-  -- lock discipline of the registry
+  -- lock discipline of the registry (lock calls are recognised by their sync.(RW)Mutex method on a field of M)
   lockUse == expectedLockUse &&
   -- the registry's own fields are assigned only by the registration methods (which hold the write lock)
-  registryWrites == ["M.Add: m.literal[mimetype]", "M.AddCmd: m.literal[mimetype]", "M.AddCmdRegexp: m.pattern",
-    "M.AddFunc: m.literal[mimetype]", "M.AddFuncRegexp: m.pattern", "M.AddRegexp: m.pattern"] &&
-  -- package-level slices are only handed to read-only callees …
-  globalArgCallees.all (fun s => readOnlyCallees.contains s) &&
-  -- … and appended to only at two known sites (cap == len is checked at run time through the hook)
-  appendBases.all (fun s => ["css.urlBytes in cssMinifier.minifyTokens", "minify.dataBytes in DataURI"].contains s)
+  registryWrites == ["M.Add: literal[_]", "M.AddCmd: literal[_]", "M.AddCmdRegexp: pattern",
+    "M.AddFunc: literal[_]", "M.AddFuncRegexp: pattern", "M.AddRegexp: pattern"] &&
+  -- nothing derived from a package-level slice / map is written through or escapes in the code the analysis has source for …
+  aliasViolations.isEmpty &&
+  -- … and where such a value leaves that code, the callee is a read-only standard-library function or one of the contracts
+  globalArgLeaves.all leafOk &&
+  -- … and only two of them are ever the base of an append (their cap == len is checked at run time through the hook)
+  appendBases.all (fun s => ["css.urlBytes", "minify.dataBytes"].contains s)
 
 /-- the source of /repo, as of this run, has the shape the model assumes -/
 theorem facts_ok : factsOk = true := by decide +kernel
